@@ -257,6 +257,11 @@ def corpus():
              newick="(((T0,T1),T2),T3);", digits=None, alpha=0.5, beta=2.0),
         dict(kind="skyride", n=4, scheme="ties", mode="single", B=1, tips=[0.0, 1.0, 1.0, 0.0], coals=[[3.0, 2.0, 4.0]],
              newick="(((T0,T1),T2),T3);", digits=None, grid=[], theta=[[3.0, 10.0, 4.0]]),
+        # a deep tree in which one coalescence follows the previous one after 1e-8 (a resolved polytomy): one statistic
+        # is eleven orders of magnitude below the running total of the others
+        dict(kind="skyride", n=5, scheme="iso", mode="single", B=1, tips=[0.0] * 5,
+             coals=[[40.0, 40.00000001, 120.0, 300.0]], newick="((((T0,T1),T2),T3),T4);", digits=None, grid=[],
+             theta=[[50.0, 2e-8, 60.0, 80.0]], burst=dict(node=1, gap=1e-8, scaled_by=1.0)),
         dict(kind="skygrid", n=5, scheme="serial", mode="single", B=1, tips=[0.0, 1.0, 2.0, 3.0, 12.0],
              coals=[[1.5, 4.0, 6.0, 16.0]], newick="((((T0,T1),T2),T3),T4);", digits=None, grid_style="cutoff",
              grid=[2.5, 5.0, 7.5, 10.0], theta=[[math.exp(v) for v in (1.0, 3.0, 6.0, 8.0, 9.0)]]),
